@@ -109,8 +109,11 @@ CHECKS = {
            'half the attribute-level validators are under contract (Tier A: an open file is an object whose attrs hold '
            'JSON-like values): _valid_nnz (a non-negative integer), and second contracts of _valid_shape, _valid_format_url, '
            '_valid_type, _valid_generated_by for an HDF5 table (they look the attribute up under its hyphenated name), '
-           '_valid_creation_date (hands the attribute to _valid_date once). _validate_hdf5, _valid_hdf5_axis (groups and '
-           'datasets are not modelled), the metadata checks, completeness and "accepted => loads" are bounded only.',
+           '_valid_creation_date (hands the attribute to _valid_date once); and _valid_hdf5_axis over a model of datasets as '
+           'functions of (file, path): no complaint only if the ids of the axis are text, none is empty and none occurs twice, '
+           'data is numeric, indices and indptr are integers, and every stored index names an id of the other axis. The '
+           'composition _validate_hdf5 (presence of groups / datasets, shape against the id counts), the metadata checks, '
+           'completeness and "accepted => loads" are bounded only.',
            technique=TECH),
  'C16': _b('Contract of == / != / descriptive_equality (depends on content only; equivalence relation; accessors do not '
            'change content; equal tables export equally) over equal-content routes x accessor interleavings, and all '
